@@ -230,6 +230,11 @@ func Findings() []Finding {
 	findingsOnce.Do(func() {
 		e := LoadEnv()
 		findings = ParseFindings(filepath.Join(e.Root, "KNOWN_FINDINGS.txt"))
+		extra, _ := filepath.Glob(filepath.Join(e.Root, "KNOWN_FINDINGS.d", "*.txt"))
+		sort.Strings(extra)
+		for _, p := range extra {
+			findings = append(findings, ParseFindings(p)...)
+		}
 	})
 	return findings
 }
